@@ -2086,6 +2086,17 @@ class TypeTag:
             return UnionSpec(mine + list(oth))
         return NotImplemented
 
+    def _pv_getattr(self, ex, name):
+        if self.name == "dict" and name == "fromkeys":
+            # dict.fromkeys(iterable, value=None): every key maps to the SAME value object
+            def fromkeys(ex2, keys, value=None):
+                return {k: value for k in ex2.iterate_concrete(keys)}
+            return Native(fromkeys, "dict.fromkeys")
+        if name in ("__name__", "__qualname__"):
+            return self.name
+        # a member of a builtin type this interpreter has no model of: undecided, never an AttributeError of the program
+        raise OutsideSubset(f"no stub for {self.name}.{name}")
+
     def __repr__(self):
         return f"<type {self.name}>"
 
